@@ -11,6 +11,11 @@ CHECKS = {
         technique="explicit-state BFS (canonical-dump dedup) over app-script / packet-assembly interleavings and deviation-bounded network fates of two real stream endpoints wired back to back; perfect-network completion run from every state",
         text="Two real DataStreams+FlowController+reliable-frame-deque endpoints exchange real frame bytes (re-parsed by the real FrameReader). Every interleaving of the application scripts, reads and packet assembly is explored together with every network fate (reorder/delay, deliver-without-ack + late ack, loss incl. spurious, duplicate, late arrival after loss) up to 1 (thorough: 2) deviations; bytes read == bytes written in order exactly once, EOF only after the last byte; from every reachable state a perfect-network run must deliver everything, report EOF and complete flush/shutdown.",
         note="Streams of <= 6 bytes (thorough adds 2x9000 bytes), packet capacities 26..1200, 5 small scripts quick / 11 scripts thorough; ack/loss feedback mirrors qconnection's AckDataSpace/DataTracker call sequence; app polls use a no-op waker (wake-ups are C16's subject)."),
+    "C02": dict(
+        engine="E3-netsim", category="fault_enumeration", design_ref="§3 C02",
+        technique="stateless exhaustive enumeration of per-datagram network fates (deviation-bounded) over the whole real client+server stack on a single-threaded tokio runtime with a virtual clock and an in-memory network",
+        text="Unmodified dquic client and echo server (real rustls handshake) over an in-memory ProductIO. Liveness profile: every schedule with <= 1 deviation (drop, dup, delay, 4 truncations, 14 bit-flip classes at every datagram) for 4 workload/config pairs, plus <= 2 deviations over the first 12 (thorough: 40) datagrams: handshake completes, every byte is echoed intact, all tasks finish. Safety profile: from every datagram index on drop / corrupt / truncate / duplicate everything: nothing corrupt is delivered, nobody panics, the application ends within 25 virtual seconds.",
+        note="Determinism is self-tested per workload (fault-free run twice, identical trace signature); multi-threaded scheduling, migration, 0-RTT and Retry are out of reach; transfers of a few kB."),
     "C03": dict(
         engine="E0-enum", category="exploration", design_ref="§3 C03",
         technique="exhaustive enumeration of byte strings (all strings over a 12-byte alphabet up to length 5-7 with every first byte, every prefix / single-position substitution of a corpus of valid encodings) through the real decoders",
@@ -30,7 +35,7 @@ CHECKS = {
         engine="E1-xplore", category="model_checking", design_ref="§3 C07",
         technique="explicit-state BFS over begin/record/build/abandon/ack/loss histories of the real ArcSentJournal (pn uniqueness) + exhaustive enumeration of (pn, largest_acked, receiver position) triples through PacketNumber encode -> wire -> decode",
         text="(a) every history <= 7 ops (thorough 9) of packet assemblies (0-2 frames, trivial, build_with_time/build_trivial, abandoned guards) interleaved with acks/losses: every built packet's number is strictly larger than all earlier ones, abandoned assemblies consume nothing; (b) ~14 M (thorough 290 M) triples: decode(encode(pn, la), expected) == pn.",
-        note="(a) <= 3-4 packets; (b) boundary sets for pn and distances; the end-to-end qlog monitor (c) is not built yet."),
+        note="(a) <= 3-4 packets; (b) boundary sets for pn and distances; (c) E3 monitor: packet numbers in captured qlog packet_sent events strictly increase per (endpoint, space) in every execution with <= 1 deviation."),
     "C08": dict(
         engine="E1-xplore", category="model_checking", design_ref="§3 C08",
         technique="explicit-state BFS to closure over operation histories of the real RecvBuf against a covered-offset-set reference",
@@ -56,11 +61,26 @@ CHECKS = {
         technique="explicit-state BFS over the two-endpoint stream pipe with stream-count limits 0..3 and both concurrency strategies (local opens) + exhaustive enumeration of peer frames x stream-id classes after short legitimate histories (peer side)",
         text="Local opens never exceed the count the peer has granted as known to the opener; MAX_STREAMS never decreases; every stream is offered to accept exactly once. Peer side: every frame kind x (initiator, direction) x index {0,max-1,max,max+1,2^60-1} x 19 payload shapes, for both roles, counts {0,1,3}^2, both strategies, 3 prefixes: stream-limit / stream-state / flow-control verdicts per RFC 9000; two-frame final-size contradictions; implicit opening of lower-numbered streams exactly once.",
         note="Final-size clauses are demanded only while the receiving part of the stream is still open (the RFC's 'even after closed' is a SHOULD)."),
+    "C14": dict(
+        engine="E1-xplore", category="model_checking", design_ref="§3 C14",
+        technique="explicit-state BFS to closure over operation histories of real ArcLocalCids on a real QuicRouter and of real ArcRemoteCids with path cells",
+        text="Local ids: set_limit, RETIRE_CONNECTION_ID for every sequence number incl. never-issued/repeated/reordered, creating/dropping a second connection on the shared router: consecutive numbering, unretired <= limit, one replacement per accepted retirement, unissued retirement rejected, every id ever issued routes to exactly its own connection while live and is unrouted afterwards. Remote ids: NEW_CONNECTION_ID (seq < 6, any order, duplicates, retire-prior-to), paths applying/borrowing/releasing/retiring cells: borrowed id stable, retire-prior-to honoured, one RETIRE per abandoned id, limit enforced.",
+        note="seq < 6, <= 3 paths, limits 2..4; ids are the real random ones (masked in the canonical state)."),
     "C15": dict(
         engine="E1-xplore", category="model_checking", design_ref="§3 C15",
         technique="explicit-state BFS to closure over arrival / burst / grant / abort histories of the real AntiAmplifier + Constraints + ArcSendWaker driven by a line-by-line mirror of the Burst call protocol",
         text="Until granted, total sent <= 3 x total received after every step, the credit reported by balance() never exceeds 3*rcvd - sent (no wrap), sending resumes after rcvd/grant, abort reports the path gone, a parked sender is woken.",
-        note="Part (a) only: the burst loop itself is mirrored in the harness (a change inside burst.rs is seen only after the mirror is updated); the full-stack monitor (b) is not built yet."),
+        note="(a) the burst loop is mirrored line by line in the harness (a change inside burst.rs is seen only after the mirror is updated); (b) E3 monitor on the real stack: cumulative bytes from the server to the unvalidated client address <= 3x received, at every datagram, max_segments 1/4/16, every execution with <= 1 deviation."),
+    "C16": dict(
+        engine="E2-sched", category="model_checking", design_ref="§3 C16",
+        technique="controlled scheduler (CHESS style): stateless DFS over all interleavings of logical waiter/notifier threads at lock-region granularity plus sched_point hooks, preemption bound 3 (thorough: unbounded); deadlock with the condition true = lost wake-up",
+        text="For each hand-written waiter/notifier protocol (SendWaker incl. the attempt-then-wait pattern, AsyncDeque, ArcReceiving, transport parameters, local stream ids with a stale waiter, stream writer window/flush/shutdown, stream reader data/FIN/reset/error, listener accept, SendBuffer vs burst loop, AntiAmplifier balance vs rcvd/grant/abort, and the extension scenarios in c16b.rs) every schedule of 2-4 logical threads is executed on the real code; a waiter asleep after every notifier ran is a lost wake-up; results are checked against the sequential expectation.",
+        note="Interleavings inside one lock region and weak-memory effects are out of scope; scenarios have <= 4 threads."),
+    "C17": dict(
+        engine="E2-sched", category="model_checking", design_ref="§3 C17",
+        technique="controlled-scheduler DFS over racing ArcConnState transitions with a terminated() waiter (a), component-level close scenarios (b, c16b.rs), and E3 enumeration of close events at every datagram index x {client, server, both} plus idle-timeout pairs (c)",
+        text="(a) all schedules of enter_handshaked / enter_closing(e1) / enter_closing(e2) / enter_draining with pre-emption between CAS and SetOnce::set: state codes never go backwards, the terminating error is fixed exactly once by the call that won, waiters complete. (c) closing at every point of the fault-free run by either or both sides: every application future completes within 30 virtual seconds, no panic, nothing corrupt; idle connections terminate no earlier than the effective idle timeout (min non-zero) and not much later.",
+        note="(c) close points are datagram indexes of the fault-free run of 2 (thorough 4) workloads; protocol-error and lost-path closes are covered only through C02's safety profile."),
     "C18": dict(
         engine="E0-enum", category="exploration", design_ref="§3 C18",
         technique="exhaustive enumeration of transport-parameter blobs (each id x boundary/illegal values x role, all pairs of illegal choices, unknown/duplicate ids) against an independent RFC 9000 18.2/7.3/7.4 legality table, plus enumeration of cid-binding orders, idle-timeout pairs and 0-RTT remembered-parameter comparisons on the real Parameters state machine",
@@ -70,17 +90,17 @@ CHECKS = {
         engine="E0-enum", category="exploration", design_ref="§3 C19",
         technique="exhaustive enumeration of datagram sizes x peer maxima x remaining-space values x queue contents on the real DatagramFlow writer/assembler/reader, bytes re-parsed by the real FrameReader, plus an E1 closure over send/assemble/receive histories",
         text="A datagram is refused iff no DATAGRAM frame carrying it fits the peer's maximum; every emitted frame is exactly one queued datagram, unchanged, FIFO, a length-less frame only last with padding before it; oversize received frames yield PROTOCOL_VIOLATION; after a connection error everything fails with it.",
-        note="Part (a) only (component level): DatagramFlow::try_load_data_into has no caller in qconnection, so end-to-end transmission (part b) is not exercised yet."),
+        note="(a) component level; (b) E3: k datagrams each way over the real stack, fault-free and every single-drop schedule — currently every accepted datagram is never transmitted (known finding), so the order/merge clauses are only exercised at component level."),
+    "C20": dict(
+        engine="E3-netsim", category="fault_enumeration", design_ref="§3 C20",
+        technique="E3 enumeration of fate sequences (fault-free and every single-drop schedule) x exporter configurations {none, no-op, capturing, capturing+filter} over the whole stack built with the telemetry feature",
+        text="Every event captured along client and server connection lifetimes serialises to a JSON object with time/name/data, parses back to an equal event and re-serialises identically; logging never panics; the datagram trace signature and all application-visible results are identical across exporter configurations for the same fate sequence.",
+        note="Only events the transport really emits in these workloads are covered (handshake, transfer, loss, close; no migration); the compile-time 'telemetry off' build is not compared."),
 }
 
 NOT_YET = {
-    "C02": "full-stack fault enumeration (E3 netsim) not built yet; bounded exhaustive fate enumeration applies (DESIGN.md §3 C02)",
     "C04": "hostile-frame cost/verdict enumeration not built yet; bounded exhaustive enumeration applies (DESIGN.md §3 C04)",
     "C13": "loss-detection / congestion-control state search not built yet (DESIGN.md §3 C13)",
-    "C14": "connection-id state search being built (DESIGN.md §3 C14)",
-    "C16": "controlled-scheduler scenarios not built yet; engine E2 exists in mc-core (DESIGN.md §3 C16)",
-    "C17": "close/fail exploration not built yet (DESIGN.md §3 C17)",
-    "C20": "event-logging checks need the E3 netsim, not built yet (DESIGN.md §3 C20)",
 }
 
 def main():
